@@ -82,19 +82,39 @@ try:
         # load sensitive / needs the network) and are not part of the 3814 pinned tests
         SKIP = "^(TestSequenceLargeLog|TestCCADBRoots)$"
         run(["go", "build", "-o", os.devnull, "./cmd/skylight"])  # TestScripts starts the server with `go run .` under a 10 s deadline
-        rc, out = run(["go", "test", "-vet=off", "-count=1", "-timeout", "25m", "-skip", SKIP, "./..."])
+        # packages whose test binary (or, for cmd/skylight TestScripts, whose `go run .` binary) contains changed code:
+        # the outcome of every other package's tests cannot depend on the patch. --full-suite runs everything.
+        pkgs = ["./..."]
+        if "--full-suite" not in sys.argv:
+            rcl, outl = run(["go", "list", "-test", "-deps", "-f", "{{.ImportPath}}|{{.ForTest}}|{{join .Deps \",\"}}", "./..."])
+            changed = set("filippo.io/sunlight" + ("/" + t if t != "." else "") for t in touched)
+            affected = set()
+            for line in outl.splitlines():
+                parts = line.split("|")
+                if len(parts) != 3 or not parts[0].startswith("filippo.io/sunlight"):
+                    continue
+                ip = parts[0].split(" ")[0]
+                base = ip[:-5] if ip.endswith(".test") else ip
+                base = base[:-5] if base.endswith("_test") else base
+                deps = set(d.split(" ")[0] for d in parts[2].split(","))
+                if base in changed or (deps & changed):
+                    affected.add(base)
+            pkgs = sorted("./" + a.replace("filippo.io/sunlight", "").lstrip("/") for a in affected) or ["./..."]
+            res["suite_selection"] = {"changed_packages": sorted(changed), "tested_packages": pkgs}
+        rc, out = run(["go", "test", "-vet=off", "-count=1", "-timeout", "25m", "-skip", SKIP] + pkgs)
         fails = sorted(set(re.findall(r"--- FAIL: (\S+)", out)))
         pk_fail = sorted(set(re.findall(r"(?m)^FAIL\s+(filippo\.io/\S+)", out)))
         res["suite"] = {"rc": rc, "failed_tests": fails, "failed_pkgs": pk_fail, "secs": int(time.time() - t0)}
         still = list(pk_fail)
         if rc != 0:
             res["suite"]["output"] = nolog(out)[-2500:]
-            # a failure under load is retried alone, per package (the pinned suite is stable on a quiet machine)
+            # a failure under load is retried alone, per package, with raised priority (the pinned suite is stable on a
+            # quiet machine; cmd/skylight TestScripts gives `go run .` 10 s to come up)
             retries = {}
             for pk in pk_fail:
                 rel = "./" + pk.replace("filippo.io/sunlight", "").lstrip("/")
-                for attempt in range(2):
-                    rc2, out2 = run(["go", "test", "-vet=off", "-count=1", "-timeout", "25m", "-skip", SKIP, rel])
+                for attempt in range(5):
+                    rc2, out2 = run(["nice", "-n", "-15", "go", "test", "-vet=off", "-count=1", "-timeout", "25m", "-skip", SKIP, rel])
                     retries[pk] = {"attempt": attempt + 1, "rc": rc2, "failed": sorted(set(re.findall(r"--- FAIL: (\S+)", out2)))}
                     if rc2 == 0:
                         still.remove(pk)
